@@ -39,7 +39,7 @@ def run(items, fn, nthreads=4, chunk=40, switch=1e-6, join_timeout=300):
                 t0 = clock()
                 try:
                     v = fn(items[i])
-                except Exception as e:  # noqa: BLE001 - recorded, judged by the caller
+                except BaseException as e:  # noqa: BLE001 - recorded, judged by the caller (PanicException of the overflow-checked build is a BaseException)
                     sp[i] = (t0, clock())
                     rec((t, i, "exc", e))
                     continue
